@@ -347,7 +347,19 @@ func (c *Ctx) binop(op token.Token, a, b *Val, rt types.Type, hint string) *Val 
 		res.S = "(bvsub " + x + " " + y + ")"
 	case token.MUL:
 		res.S = "(bvmul " + x + " " + y + ")"
+		if c.abstractMulDiv(x, y) {
+			fn := fmt.Sprintf("umul%d", bits)
+			c.declareFun(fn, []string{fmt.Sprintf("(_ BitVec %d)", bits), fmt.Sprintf("(_ BitVec %d)", bits)}, fmt.Sprintf("(_ BitVec %d)", bits))
+			res.S = sApp(fn, x, y)
+		}
 	case token.QUO:
+		if !signed && c.abstractMulDiv(x, y) {
+			c.sweepObl("div.nonzero", sNot(sEq(y, bvLit(big.NewInt(0), bits))), "division")
+			fn := fmt.Sprintf("udiv%d", bits)
+			c.declareFun(fn, []string{fmt.Sprintf("(_ BitVec %d)", bits), fmt.Sprintf("(_ BitVec %d)", bits)}, fmt.Sprintf("(_ BitVec %d)", bits))
+			res.S = sApp(fn, x, y)
+			return res
+		}
 		c.sweepObl("div.nonzero", sNot(sEq(y, bvLit(big.NewInt(0), bits))), "division")
 		if signed {
 			res.S = "(bvsdiv " + x + " " + y + ")"
